@@ -204,9 +204,18 @@ def build_cases(rng, tier):
     for _ in range(3000 if quick else 40000):
         d, ctx, pos, size, e, vs = rng.choice(base)
         cases.append((d, ctx, pos, size, mutate_tokens(rng, xpgen.render(e)), {}))
+    # small scope, exhaustively: EVERY token string up to a length over a fixed alphabet; the grammar of XPathSyntax.tla decides
+    # which of them are expressions, and the processor has to agree on each
+    import itertools
+    full = 3 if quick else 4
+    for k in range(1, full + 1):
+        alpha = SMALL_ALPHABET if k <= 3 else SMALL_ALPHABET[:14]
+        for ts in itertools.product(alpha, repeat=k):
+            cases.append((1, 1 + (len(cases) % flats[0]["n"]), 1, 1, " ".join(ts), {}))
     return docs, flats, cases
 
 
+SMALL_ALPHABET = ["/", "//", "[", "]", "(", ")", ".", "..", "*", "@", "a", "1", "|", "::", "$", ",", "and", "-", "child", "text", "="]
 TOKEN_POOL = ["(", ")", "[", "]", "/", "//", "|", "+", "-", "*", "=", "!=", "<", ">=", ",", "@", ".", "..", "::", "$", "and", "or", "div", "mod",
               "a", "b", "child", "ancestor", "text", "node", "count", "last", "position", "1", "2.5", "'t'", "x", "self", "not", "comment"]
 
